@@ -1,4 +1,6 @@
 import FractopoModel.Model.Relationships
+import FractopoModel.Generated.DetermineIntersect
+import FractopoModel.Generated.RelationshipLoop
 /-!
 # C12 — cross-cut / abutting relationship counts
 -/
@@ -57,5 +59,112 @@ example : pairs ["1", "2", "3"] = [("1", "2"), ("1", "3"), ("2", "3")] := by dec
 
 /-- three sets of which the middle one is empty: both outer rows survive -/
 example : (table [] (fun s => s != "2") ["1", "2", "3"]).map (·.sets) = [("1", "3")] := by decide
+
+/-- **The regenerated `determine_intersect` IS the model's decision** (`Rel.intersectOf`) for every node class, every
+pair of set names and every combination of the three incidence facts: an X-node between the two sets is recorded under
+(first, second); a Y-node under (first, second) when a trace of the FIRST set ends there and under (second, first)
+otherwise; anything else raises (and is counted as an error by the caller). -/
+theorem C12_generated_determine_intersect (cls : String) (l1 l2 p1 : Bool) (first second : String) :
+    Gen.determine_intersect p1 cls l1 l2 first second = Rel.intersectOf cls l1 l2 p1 first second := by
+  unfold Gen.determine_intersect Rel.intersectOf
+  by_cases hx : cls = "X"
+  · subst hx; cases l1 <;> cases l2 <;> simp
+  · by_cases hy : cls = "Y"
+    · subst hy; cases l1 <;> cases l2 <;> cases p1 <;> simp
+    · simp [hx, hy]
+
+/-! ### the regenerated loop over the pairs of sets -/
+
+abbrev Item := (String × (String × String)) × Nat
+abbrev GRow := String × (String × String) × Nat × Nat × Nat × Nat
+
+/-- reading the grouped counts of one pair: the X count, the Y count recorded under (first, second), the Y count under
+(second, first) -/
+def readCounts (first second : String) : List Item → Nat × Nat × Nat → Nat × Nat × Nat
+  | [], acc => acc
+  | it :: rest, (x, y, yr) =>
+    if it.1.1 == "X" then readCounts first second rest (it.2, y, yr)
+    else if it.1.2 = (first, second) then readCounts first second rest (x, it.2, yr)
+    else readCounts first second rest (x, y, it.2)
+
+/-- the grouped counts of a pair mention only X, and Y under one of the two orders of the pair (what `determine_intersect`
+can produce, `C12_generated_determine_intersect`) -/
+def ItemsOK (first second : String) (its : List Item) : Prop :=
+  ∀ it ∈ its, it.1.1 = "X" ∨ (it.1.1 = "Y" ∧ (it.1.2 = (first, second) ∨ it.1.2 = (second, first)))
+
+theorem inner_loop_eq (nonEmpty : String → Bool) (items : String → String → List Item) (errcount : String → String → Nat) (names : List String)
+    (label first second : String) (u : Unit) (its : List Item) (h : ItemsOK first second its) (x y yr : Nat) :
+    Gen.relationship_rows_loop2 nonEmpty items errcount names label first second u its x y yr = .done (readCounts first second its (x, y, yr)) := by
+  induction its generalizing x y yr with
+  | nil => rfl
+  | cons it rest ih =>
+    have hit := h it (by simp)
+    have hrest : ItemsOK first second rest := fun i hi => h i (by simp [hi])
+    simp only [Gen.relationship_rows_loop2, readCounts]
+    rcases hit with hx | ⟨hy, h12 | h21⟩
+    · simp [hx, ih hrest]
+    · have : (it.1.1 == "X") = false := by rw [hy]; decide
+      simp [this, hy, h12, ih hrest]
+    · have hX : (it.1.1 == "X") = false := by rw [hy]; decide
+      by_cases h12 : it.1.2 = (first, second)
+      · simp [hX, hy, h12, ih hrest]
+      · have hne : ¬(second = first ∧ first = second) := by
+          intro hh; apply h12; rw [h21]; simp [hh.1]
+        simp [hX, hy, h21, hne, ih hrest]
+
+/-- the row the loop produces for a pair whose sets both contain traces -/
+def genRow (items : String → String → List Item) (errcount : String → String → Nat) (label : String) (p : String × String) : GRow :=
+  let c := readCounts p.1 p.2 (items p.1 p.2) (0, 0, 0)
+  (label, (p.1, p.2), c.1, c.2.1, c.2.2, errcount p.1 p.2)
+
+theorem outer_loop_eq (nonEmpty : String → Bool) (items : String → String → List Item) (errcount : String → String → Nat) (names : List String)
+    (label : String) (all ps : List (String × String)) (hok : ∀ p ∈ ps, ItemsOK p.1 p.2 (items p.1 p.2)) (acc : List GRow) :
+    Gen.relationship_rows_loop1 nonEmpty items errcount names label all ps acc =
+      .done (acc ++ ps.filterMap fun p => if nonEmpty p.1 && nonEmpty p.2 then some (genRow items errcount label p) else none) := by
+  induction ps generalizing acc with
+  | nil => simp [Gen.relationship_rows_loop1]
+  | cons p rest ih =>
+    obtain ⟨a, b⟩ := p
+    have hrest : ∀ p ∈ rest, ItemsOK p.1 p.2 (items p.1 p.2) := fun p hp => hok p (by simp [hp])
+    simp only [Gen.relationship_rows_loop1, List.filterMap_cons]
+    by_cases hne : (nonEmpty a && nonEmpty b) = true
+    · have h1 : (!nonEmpty a || !nonEmpty b) = false := by
+        simp only [Bool.and_eq_true] at hne; simp [hne.1, hne.2]
+      simp only [h1, Bool.false_eq_true, if_false, hne, if_true]
+      rw [inner_loop_eq nonEmpty items errcount names label a b () (items a b) (hok (a, b) (by simp))]
+      simp only []
+      rw [ih hrest]
+      simp [genRow]
+    · have h1 : (!nonEmpty a || !nonEmpty b) = true := by
+        cases ha : nonEmpty a <;> cases hb : nonEmpty b <;> simp_all
+      simp only [h1, if_true, hne, Bool.false_eq_true, if_false]
+      exact ih hrest acc
+
+/-- **One row per pair of sets that both contain traces, in `combinations` order, each computed from that pair alone.** The
+regenerated loop of `determine_crosscut_abutting_relationships` (with the `continue` for pairs with an empty set) produces
+exactly the rows of the non-empty pairs: an empty set anywhere in the list removes only its own pairs -- never a later
+row (`C12_rows_independent` for the regenerated code). -/
+theorem C12_generated_rows (nonEmpty : String → Bool) (items : String → String → List Item) (errcount : String → String → Nat)
+    (names : List String) (label : String) (hn : 2 ≤ names.length)
+    (hok : ∀ p ∈ pyCombinations2 names, ItemsOK p.1 p.2 (items p.1 p.2)) :
+    Gen.relationship_rows nonEmpty items errcount names label =
+      .ok ((pyCombinations2 names).filterMap fun p => if nonEmpty p.1 && nonEmpty p.2 then some (genRow items errcount label p) else none) := by
+  unfold Gen.relationship_rows
+  have : ¬ names.length < 2 := by omega
+  simp only [this, decide_false, Bool.false_eq_true, if_false]
+  rw [outer_loop_eq nonEmpty items errcount names label _ _ hok []]
+  simp
+
+/-- `itertools.combinations(names, 2)` of the regenerated code is the model's `pairs` -/
+theorem combinations_eq_pairs (l : List String) : pyCombinations2 l = pairs l := by
+  induction l with
+  | nil => rfl
+  | cons a l ih => simp [pyCombinations2, pairs, ih]
+
+/-- non-vacuity: three sets, the middle one empty: the row of the outer pair is there -/
+example :
+    Gen.relationship_rows (fun s => s != "B") (fun _ _ => [(("X", ("A", "C")), 2), (("Y", ("C", "A")), 1)]) (fun _ _ => 0) ["A", "B", "C"] "t"
+      = .ok [("t", ("A", "C"), 2, 0, 1, 0)] := by
+  simp [Gen.relationship_rows, pyCombinations2, Gen.relationship_rows_loop1, Gen.relationship_rows_loop2]
 
 end C12
